@@ -102,4 +102,112 @@ theorem buildSSLKeyPairs_sound (secrets : List SecretObj) (ls : List Listener) (
 theorem policiesDiffer_self (p : Option BTP) : policiesDiffer p p = false := by
   cases p <;> simp [policiesDiffer, configDiffer]
 
+/-! ### the resolver cache -/
+
+/-- every cached verdict is the verdict of validating that Secret -/
+def CacheOK (secrets : List SecretObj) (cache : ResCache) : Prop :=
+  ∀ k v, cache.lookup k = some v → v = secretVerdict secrets k
+
+theorem resolveCached_spec {secrets : List SecretObj} {cache : ResCache} (h : CacheOK secrets cache) (k : Name × Name) :
+    (resolveCached secrets cache k).1 = secretVerdict secrets k ∧ CacheOK secrets (resolveCached secrets cache k).2 := by
+  unfold resolveCached
+  cases hl : cache.lookup k with
+  | some v => exact ⟨h k v hl, h⟩
+  | none =>
+    refine ⟨rfl, ?_⟩
+    intro k' v' hk'
+    simp only [List.lookup_cons] at hk'
+    by_cases e : (k' == k) = true
+    · simp only [e] at hk'
+      have : k' = k := by simpa using e
+      subst this
+      cases hk'; rfl
+    · have e' : (k' == k) = false := by simpa using e
+      simp only [e'] at hk'
+      exact h k' v' hk'
+
+theorem resolveSeq_spec (secrets : List SecretObj) : ∀ (ks : List (Name × Name)) (cache : ResCache),
+    CacheOK secrets cache → resolveSeq secrets cache ks = ks.map (secretVerdict secrets) := by
+  intro ks
+  induction ks with
+  | nil => intro _ _; rfl
+  | cons k ks ih =>
+    intro cache h
+    obtain ⟨h1, h2⟩ := resolveCached_spec h k
+    simp only [resolveSeq, List.map_cons, h1, ih _ h2]
+
+/-! ### processed policies -/
+
+theorem findProc_fold_isSome (refNs refName : Name) : ∀ (procs : List ProcBTP) (acc : Option ProcBTP),
+    (acc.isSome = true ∨ ∃ p ∈ procs, targetsSvc p.pol refNs refName = true) →
+    (procs.foldl (fun acc p =>
+      if targetsSvc p.pol refNs refName then
+        match acc with
+        | some cur => if btpLess p.pol cur.pol then some p else some cur
+        | none => some p
+      else acc) acc).isSome = true := by
+  intro procs
+  induction procs with
+  | nil =>
+    intro acc h
+    rcases h with h | ⟨p, hp, _⟩
+    · simpa using h
+    · simp at hp
+  | cons q qs ih =>
+    intro acc h
+    simp only [List.foldl_cons]
+    apply ih
+    by_cases ht : targetsSvc q.pol refNs refName = true
+    · left
+      simp only [ht, if_true]
+      cases acc with
+      | none => rfl
+      | some cur => simp only; split <;> rfl
+    · rcases h with h | ⟨p, hp, hpt⟩
+      · left; simpa [ht] using h
+      · rcases List.mem_cons.mp hp with e | e
+        · subst e; exact absurd hpt ht
+        · right; exact ⟨p, e, hpt⟩
+
+theorem findProc_fold_mem (refNs refName : Name) : ∀ (procs : List ProcBTP) (acc : Option ProcBTP) (w : ProcBTP),
+    (procs.foldl (fun acc p =>
+      if targetsSvc p.pol refNs refName then
+        match acc with
+        | some cur => if btpLess p.pol cur.pol then some p else some cur
+        | none => some p
+      else acc) acc) = some w →
+    acc = some w ∨ (w ∈ procs ∧ targetsSvc w.pol refNs refName = true) := by
+  intro procs
+  induction procs with
+  | nil => intro acc w h; exact Or.inl h
+  | cons q qs ih =>
+    intro acc w h
+    simp only [List.foldl_cons] at h
+    rcases ih _ w h with h1 | ⟨h1, h2⟩
+    · by_cases ht : targetsSvc q.pol refNs refName = true
+      · simp only [ht, if_true] at h1
+        cases acc with
+        | none => simp at h1; subst h1; exact Or.inr ⟨List.mem_cons_self, ht⟩
+        | some cur =>
+          simp only at h1
+          split at h1
+          · simp at h1; subst h1; exact Or.inr ⟨List.mem_cons_self, ht⟩
+          · exact Or.inl h1
+      · simp only [ht] at h1
+        exact Or.inl (by simpa using h1)
+    · exact Or.inr ⟨List.mem_cons_of_mem _ h1, h2⟩
+
+theorem findProc_isSome {procs : List ProcBTP} {refNs refName : Name} {p : ProcBTP} (hp : p ∈ procs)
+    (ht : targetsSvc p.pol refNs refName = true) : (findProc procs refNs refName).isSome = true :=
+  findProc_fold_isSome refNs refName procs none (Or.inr ⟨p, hp, ht⟩)
+
+theorem findProc_mem {procs : List ProcBTP} {refNs refName : Name} {w : ProcBTP}
+    (h : findProc procs refNs refName = some w) : w ∈ procs ∧ targetsSvc w.pol refNs refName = true := by
+  rcases findProc_fold_mem refNs refName procs none w h with h | h
+  · cases h
+  · exact h
+
+theorem full_invalid (cms : List CMObj) (b : BTP) (h : b.full = true) : (validateBTP cms b).1 = false := by
+  simp [validateBTP, h]
+
 end NGF.Tls
